@@ -38,6 +38,7 @@ func main() {
 			fmt.Println(err)
 			os.Exit(2)
 		}
+		os.Setenv("VERIF_KEEP_REPLAYS", "1")
 		c := core.NewCheck(id, "quick")
 		c.ReplayMode = true
 		d.Replay(c, rf.Vector)
